@@ -6,6 +6,7 @@
 #define TAO_PEGTL_MEMORY_INPUT_HPP
 
 #include <cassert>
+#include <algorithm>
 #include <cstddef>
 #include <cstdint>
 #include <cstring>
@@ -357,12 +358,16 @@ namespace TAO_PEGTL_NAMESPACE
 
       [[nodiscard]] const char* at( const TAO_PEGTL_NAMESPACE::position& p ) const noexcept
       {
-         return this->begin() + p.byte;
+         // Relative to the current position, the byte counter might have started at a non-zero value.
+         return this->current() + ( static_cast< std::ptrdiff_t >( p.byte ) - static_cast< std::ptrdiff_t >( this->byte() ) );
       }
 
       [[nodiscard]] const char* begin_of_line( const TAO_PEGTL_NAMESPACE::position& p ) const noexcept
       {
-         return at( p ) - ( p.column - 1 );
+         // With a non-default initial column the first line starts in front of the data.
+         const char* a = at( p );
+         const auto available = static_cast< std::size_t >( a - this->begin() );
+         return a - ( std::min )( p.column - 1, available );
       }
 
       [[nodiscard]] const char* end_of_line( const TAO_PEGTL_NAMESPACE::position& p ) const noexcept
